@@ -192,6 +192,26 @@ DESCR = {
  "C18-K": ("ReadBytes returns nil data together with an error", "a stream that ends behind bytes without delimiter, consumed by a frame read"),
  "C19-K": ("'filesystem socket' remembered in a field that the tcp arm and teardown never clear", "one Service bound to a filesystem unix address and later to a tcp address"),
  "C20-K": ("defer file.Close() on the inherited descriptor's os.File", "a second serve period (or second Service) in the same activated process"),
+ "C01-L": ("handler context built once per serve period, derived from the first connection's private context", "a second connection still open when the first connection of the period closes"),
+ "C02-L": ("bufio readers from a package-level pool, returned by Conn.Close (not idempotent)", "a Connection closed twice earlier in the process, then two connections alive at the same time"),
+ "C03-L": ("bridge started with cmd.Env = append(cmd.Env, \"LC_ALL=C\")", "a bridge command line that uses the caller's environment"),
+ "C04-L": ("encoded standard error replies cached process-wide, keyed by field=value", "MethodNotImplemented and MethodNotFound carrying the same method string"),
+ "C05-L": ("trees start from a package-level template with pre-sized member lists (shared backing arrays)", "a second parse (or parallel parses): earlier trees are overwritten"),
+ "C06-L": ("duplicate map replaced by a process-wide name table stamped with the parse serial", "another goroutine defining the same name between a description's two definitions"),
+ "C07-L": ("generator accepts several files; duplicates detected by package name", "one invocation with the same interface in two directories"),
+ "C08-L": ("serviceCall header from a sync.Pool, not zeroed", "flags or parameters of an earlier call (any connection) leaking into a call that omits them"),
+ "C09-L": ("parsers recycled through a channel of capacity 4 with a blocking put", "more than four New() calls in flight"),
+ "C10-L": ("connections read in 1 s rounds; a timed-out read drops the partial frame it had consumed", "a client pausing more than 1 s inside a frame"),
+ "C11-L": ("decode error wrapped with NetConn().RemoteAddr()", "a malformed reply on the bridge transport (PipeCon.RemoteAddr panics)"),
+ "C12-L": ("decoded replies pooled; the raw parameters handed out in *Error are reused", "the next receive on any connection after an error value was returned"),
+ "C13-L": ("GetInfo reply struct from a sync.Pool, never zeroed", "two Connections to different services, the second with an empty identity string"),
+ "C14-L": ("process-wide registry of bound addresses keyed by the address string", "two Service objects both using tcp:127.0.0.1:0"),
+ "C15-L": ("open-connection count moved into ctxio as a package-level counter", "any other connection of the process (client side, other services) open at the idle expiry"),
+ "C16-L": ("process-wide map of bound unix paths guarded by the per-Service mutex", "two Service objects binding / shutting down at the same time"),
+ "C17-L": ("bridge stdin pipe enlarged through w.Fd() (switches the descriptor to blocking mode)", "a bridge that does not read, a large request, a context that ends"),
+ "C18-L": ("bufio readers from a package-level pool, returned by Conn.Close (not idempotent)", "a Connection closed twice, then several upgraded connections at the same time"),
+ "C19-L": ("client tcp arm splits at the last ':' and re-joins with JoinHostPort", "tcp:[::1]:port"),
+ "C20-L": ("LISTEN_* decision computed once per process (sync.Once)", "a later Bind/Listen after the process changed its LISTEN_* environment"),
 }
 
 conf = {}
@@ -235,7 +255,7 @@ for pid in sorted(props):
                 shutil.copy(os.path.join(out, extra), os.path.join(d, extra))
         if os.path.isdir(os.path.join(out, f"{pid}_{v}_demo")):
             shutil.copytree(os.path.join(out, f"{pid}_{v}_demo"), os.path.join(d, "demo")); demo = "demo/run.sh"
-        for nf in (f"{pid}_notes.md", f"{pid}_notes2.md", f"{pid}_notes3.md", f"{pid}_notes4.md", f"{pid}_notes5.md", f"{pid}_notes6.md"):
+        for nf in (f"{pid}_notes.md", f"{pid}_notes2.md", f"{pid}_notes3.md", f"{pid}_notes4.md", f"{pid}_notes5.md", f"{pid}_notes6.md", f"{pid}_notes7.md"):
             if os.path.exists(os.path.join(out, nf)):
                 shutil.copy(os.path.join(out, nf), os.path.join(d, "notes.md"))
         what, needs = DESCR.get(key, ("see notes.md", "see notes.md"))
